@@ -16,6 +16,9 @@
 #include "distribution/GenerateCanonical.hh"
 
 #include "detail/GenerateCanonical32.hh"
+#ifdef CELERITAS_VERIF
+#    include "corecel/sys/VerifHooks.hh"
+#endif
 
 namespace celeritas
 {
@@ -192,6 +195,9 @@ CELER_FUNCTION auto XorwowRngEngine::operator()() -> result_type
 {
     this->next();
     state_->weylstate += 362437u;
+#ifdef CELERITAS_VERIF
+    return verif::rng_word(state_->weylstate + state_->xorstate[4]);
+#endif
     return state_->weylstate + state_->xorstate[4];
 }
 
